@@ -131,7 +131,7 @@ class C19(Prop):
             acc.count("workload_devices_delivered", sum(1 for k, _ in rig.log.events if k == "device"))
         finally:
             rig.uninstall(loop)
-        trig = tcpwork.Rig(0)
+        trig = tcpwork.Rig(self.shard)
         dev = await trig.device()
         try:
             for t, op_list in ((1, ["get_state", "turn_on", "get_schedules"]), (2, ["get_breeze_state", "stop", "get_shutter_state"])):
